@@ -21,7 +21,7 @@ class OneConv(nn.Module):
         return self.conv(x)
 
 
-def h_optimize(H, cin, counts, k=3, size=6):
+def h_optimize(H, cin, counts, k=3, size=6, precs=(2, 4, 8)):
     """BOUNDED (concrete values): optimize_prec_assignment on a one-layer per-channel MPS model with the NE16 cost; `counts` channels start at
     2 / 4 / 8 bit.  Post-conditions of the statement: promotion only, one precision per channel, cost under the refinement's model not higher"""
     cout = sum(counts)
@@ -34,7 +34,7 @@ def h_optimize(H, cin, counts, k=3, size=6):
             k += 1
         H.set_(p, H.const_tensor(vals).reshape(H.shape(p)))
     model = MPS(net, cost={'ne16': ne16_latency}, input_example=torch.zeros(1, cin, size, size), w_search_type=MPSType.PER_CHANNEL,
-                qinfo=get_default_qinfo(w_precision=(2, 4, 8), a_precision=(8,)))
+                qinfo=get_default_qinfo(w_precision=tuple(precs), a_precision=(8,)))
     model.eval()
     qtz = model.seed.conv.w_mps_quantizer
     rows = [[], [], []]
@@ -55,7 +55,7 @@ def h_optimize(H, cin, counts, k=3, size=6):
     cost_after = H.scalar(model.get_cost('ne16'))
     H.observe('costs', [cost_before, cost_after])
     H.observe('assignment', after)
-    H.ensure('optimize:no-channel-loses-bits', all(int(after[ch]) >= start[ch] for ch in range(cout)))
+    H.ensure('optimize:no-channel-loses-bits', all(precs[int(after[ch])] >= precs[start[ch]] for ch in range(cout)))
     H.ensure('optimize:cost-under-the-refinement-model-is-not-higher', H.le(cost_after, cost_before))
 
 
@@ -99,8 +99,10 @@ PROPERTY = {
 }
 
 HARNESSES = [
-    dict(name='optimize-prec-assignment', bounded='concrete values: one-layer per-channel MPS models (64 / 32 channels, 3x3 kernel, NE16 cost), stated start counts', fn='h_optimize', property=['C20'], functions=['plinio/methods/mps/utils.py::optimize_prec_assignment', 'plinio/methods/mps/utils.py::_compute_cost'],
-         quick=[dict(cin=32, counts=[33, 20, 11])], thorough=[dict(cin=32, counts=[33, 20, 11]), dict(cin=48, counts=[34, 19, 11]), dict(cin=32, counts=[14, 10, 8])],
+    dict(name='optimize-prec-assignment', bounded='concrete values: one-layer per-channel MPS models (64 / 32 channels, 3x3 kernel, NE16 cost), stated start counts and precision tuples', fn='h_optimize', property=['C20'], functions=['plinio/methods/mps/utils.py::optimize_prec_assignment', 'plinio/methods/mps/utils.py::_compute_cost'],
+         quick=[dict(cin=32, counts=[33, 20, 11])],
+         thorough=[dict(cin=32, counts=[33, 20, 11]), dict(cin=48, counts=[34, 19, 11]), dict(cin=32, counts=[14, 10, 8]),
+                   dict(cin=20, counts=[15, 16, 33], precs=[8, 4, 2]), dict(cin=20, counts=[16, 15, 33], precs=[4, 8, 2]), dict(cin=20, counts=[33, 16, 15])],
          timeout=120, crosscheck=1, budget=600),
     dict(name='reassign', bounded='sizes P x C up to 3 x 3 (values symbolic and exhaustive)', fn='h_reassign', property=['C20'], functions=['plinio/methods/mps/utils.py::_reassign_precisions'],
          quick=[dict(P=P, C=C, best=list(b)) for P, C in ((2, 2), (2, 3), (3, 2)) for b in _compositions(C, P)],
